@@ -1912,7 +1912,12 @@ func (e *Engine) invoke(st *State, fv Value, args []Value, call *ssa.Call, pos t
 		return
 	}
 	if m, ok := lookupModel(fn.fn); ok {
-		setRes(m(e, st, args, call, pos))
+		r := m(e, st, args, call, pos)
+		if tc, isTC := r.(tailCall); isTC {
+			e.invoke(st, tc.fn, tc.args, call, pos)
+			return
+		}
+		setRes(r)
 		return
 	}
 	if e.tolerant && fn.fn.Synthetic == "package initializer" {
@@ -2031,6 +2036,38 @@ func (e *Engine) builtin(st *State, name string, args []Value, call *ssa.Call, p
 			return Ite(lt, a, b)
 		}
 		return Ite(lt, b, a)
+	case "SliceData": // unsafe.SliceData
+		sl := args[0].(SliceV)
+		if sl.obj == 0 {
+			return Pointer{}
+		}
+		return Pointer{obj: sl.obj, off: Bin("bvmul", sl.off, BV(64, uint64(sl.es)))}
+	case "String": // unsafe.String(ptr, len): a snapshot of the bytes (strings are immutable values)
+		p, ok := args[0].(Pointer)
+		n := SExt(term(args[1]), 64)
+		if !ok || p.obj == 0 {
+			return StringV{}
+		}
+		snap := e.snapshotBytes(st, SliceV{obj: p.obj, off: p.off, ln: n, cap: n, es: 1}, pos)
+		return StringV{isObj: true, obj: snap.obj, off: snap.off, ln: n}
+	case "StringData":
+		sv := args[0].(StringV)
+		sl, ok := e.strToSlice(st, sv)
+		if !ok {
+			panic(unsupported{"unsafe.StringData of opaque string"})
+		}
+		return Pointer{obj: sl.obj, off: sl.off}
+	case "Slice": // unsafe.Slice(ptr, len)
+		p, ok := args[0].(Pointer)
+		n := SExt(term(args[1]), 64)
+		if !ok || p.obj == 0 {
+			return zeroValue(call.Type())
+		}
+		es := slotsOf(call.Type().Underlying().(*types.Slice).Elem())
+		if !p.off.k || p.off.c%uint64(es) != 0 {
+			panic(unsupported{"unsafe.Slice at symbolic/unaligned offset"})
+		}
+		return SliceV{obj: p.obj, off: BV(64, p.off.c/uint64(es)), ln: n, cap: n, es: es}
 	case "print", "println":
 		return TupleV{}
 	case "$opaqueErrorString":
